@@ -15,6 +15,7 @@ def collect_on(tier: str, prop: str) -> list[dict]:
         dict(algo="PPO", kind="box", dims=[2], S=4, masked=False, n=2, T=4, stack=["TimeLimit"], obs_kind="box"),
         dict(algo="A2C", kind="discrete", dims=[2], S=4, masked=False, n=1, T=6, stack=["TimeLimit"], obs_kind="dict"),
         dict(algo="REINFORCE", kind="multidiscrete", dims=[2, 2], S=4, masked=True, n=3, T=3, stack=[], obs_kind="box"),
+        dict(algo="A2C", kind="multidiscrete", dims=[2, 3, 2], S=4, masked=True, n=2, T=4, stack=["TimeLimit"], obs_kind="box"),
         dict(algo="PPO", kind="multibinary", dims=[2], S=4, masked=True, n=1, T=8, stack=["TimeLimit", "Identity"], obs_kind="tuple"),
         dict(algo="A2C", kind="boxscalar", dims=[4], S=5, masked=False, n=4, T=2, stack=["TimeLimit"], obs_kind="box"),
         dict(algo="PPO", kind="discrete", dims=[4], S=7, masked=True, n=4, T=1, stack=["TimeLimit"], obs_kind="discrete"),
@@ -128,6 +129,8 @@ def mask_query(tier: str, prop: str) -> list[dict]:
         dict(d, policy="table_ac", kind="discrete", dims=[4], K=32, L=12),
         dict(d, policy="table_ac", kind="multidiscrete", dims=[2, 3], K=32, L=10),
         dict(d, policy="table_ac", kind="multibinary", dims=[3], K=32, L=10),
+        dict(d, policy="table_ac", kind="multidiscrete", dims=[2, 3, 2], K=32, L=10),   # >= 3 components: offsets of the flat mask matter
+        dict(d, policy="mlp_ac", kind="multidiscrete", dims=[3, 2, 2], K=32, L=8),
         dict(d, policy="mlp_ac", kind="discrete", dims=[3], K=32, L=10),
         dict(d, policy="mlp_ac", kind="multidiscrete", dims=[2, 2], K=32, L=8),
         dict(d, policy="mlp_ac", kind="multibinary", dims=[2], K=32, L=8),
@@ -207,15 +210,15 @@ def train(tier: str, prop: str) -> list[dict]:
         return dict(algo=algo, env=env, n=n, T=T, observer=observer, totals=totals, **kw)
 
     base = [
-        c("PPO", "sim_discrete", 2, 8, "rec2", [53, 16]),
-        c("PPO", "cartpole", 2, 6, "video", [30], video_interval=1),
-        c("A2C", "sim_discrete", 3, 4, "list", [40, 25]),
+        c("PPO", "sim_discrete", 2, 8, "rec2", [47, 17]),      # 2*16+15 and 16+1: largest and smallest remainder
+        c("PPO", "cartpole", 2, 6, "video", [35], video_interval=1),   # 2*12+11
+        c("A2C", "sim_discrete", 3, 4, "list", [35, 13]),        # 2*12+11 and 12+1
         c("REINFORCE", "sim_box", 1, 8, "console", [20]),
-        c("DQN", "sim_discrete", 2, 2, "rec1", [21, 8], starts=4),
+        c("DQN", "sim_discrete", 2, 2, "rec1", [23, 9], starts=4),   # 5*4+3 and 2*4+1
         c("DQN", "cartpole", 1, 3, "tb", [14], starts=5),
         c("SAC", "sim_box", 2, 1, "rec2", [9, 4], starts=3),
         c("SAC", "pendulum", 1, 2, "progress", [11], starts=4),
-        c("A2C", "cartpole", 2, 5, "video", [31], video_interval=2),
+        c("A2C", "cartpole", 2, 5, "video", [39], video_interval=2),   # 3*10+9
         c("PPO", "sim_box", 1, 10, "clock", [35]),
         c("PPO", "gym_peer", 1, 6, "rec1", [24]),      # Gymnasium peer with hidden RNG state behind GymToLeraxEnv
         c("DQN", "gym_peer", 1, 3, "rec1", [15], starts=4),
@@ -294,7 +297,8 @@ def rollout(tier: str, prop: str) -> list[dict]:
         dict(env="G1Standup", L=30, stack=[["TimeLimit", 15]]),
     ]
     if prop == "C12":
-        return classic[:4] + mj_quick[:1] if tier == "quick" else classic + mj_quick + mj_rest[:3]
+        cl = [dict(c, eager=True) for c in classic]  # one eager step per run: every classic-control environment in all three modes
+        return cl + mj_quick[:2] if tier == "quick" else cl + mj_quick + mj_rest[:3]
     if prop == "C01":
         return classic[:5] + mj_quick[:1] if tier == "quick" else classic + mj_quick + mj_rest
     # slowest compiles first (G1 ~2 min, MuJoCo 30-60 s) so that they overlap with everything else
@@ -313,7 +317,9 @@ def g1(tier: str, prop: str) -> list[dict]:
     tasks = [
         dict(mode="task", env="G1Locomotion", K=8, L=20, kwargs=loco),
         dict(mode="task", env="G1Standing", K=8, L=16, kwargs=shifted),
-        dict(mode="task", env="G1Standup", K=8, L=16, kwargs=shifted),
+        # single-point ranges (lo == hi) whose value differs from nominal: "degenerate" must not mean "disabled"
+        dict(mode="task", env="G1Standup", K=8, L=16, kwargs={"friction_range": [0.8, 0.8], "friction_loss_scale_range": [1.5, 1.5],
+                                                              "armature_scale_range": [1.2, 1.2], "mass_scale_range": [1.1, 1.1], "torso_offset_range": [2.0, 2.0]}),
         # every episode gets the documented all-zero "stand still" command: the gait clock must keep running
         dict(mode="task", env="G1Locomotion", K=4, L=14, kwargs={"zero_command_probability": 1.0}),
     ]
@@ -329,6 +335,6 @@ def g1(tier: str, prop: str) -> list[dict]:
                                                                   "lin_vel_x_range": [0.2, 0.4], "gait_frequency_range": [2.0, 2.0]}),
         dict(mode="task", env="G1Locomotion", K=16, L=40, kwargs={"friction_loss_scale_range": [0.1, 4.0], "armature_scale_range": [0.9, 1.2], "control_frequency_hz": 25.0}),
         dict(mode="task", env="G1Standing", K=16, L=30, kwargs={"friction_range": [0.1, 2.0], "mass_scale_range": [0.5, 1.5]}),
-        dict(mode="task", env="G1Standup", K=16, L=30, kwargs={"torso_offset_range": [-2.0, 2.0]}),
+        dict(mode="task", env="G1Standup", K=16, L=30, kwargs=shifted),
     ]
     return clock + tasks + defaults + swarm
